@@ -646,6 +646,17 @@ pub fn c05(p: &Params) -> Outcome {
             let max = if i % 50 == 0 { 65_536 } else { 4_096 };
             let (s, tags) = gen::stream(&mut rng, max);
             c05_check(ctx, &s, tags);
+            if i % 4000 == 7 {
+                // beyond 64 KiB
+                let big = gen::long_stream(&mut rng, 270_000);
+                ctx.count("buffers_longer_than_64KiB");
+                c05_check(ctx, &big, 1);
+                // and every suffix that leaves 65536*k + (0..1100) bytes from a frame start
+                for _ in 0..6 {
+                    let k = rng.usize_below(big.len().saturating_sub(65_000).max(1));
+                    c05_check(ctx, &big[k..], 1);
+                }
+            }
             // also every suffix start inside the first bytes (alignment of garbage)
             if i % 16 == 0 && s.len() > 4 {
                 let k = rng.usize_below(s.len().min(64));
@@ -655,7 +666,7 @@ pub fn c05(p: &Params) -> Outcome {
             }
         }
     });
-    for k in ["buffers_frame_at_0", "buffers_frame_after_skipped_bytes", "buffers_stopped_at_incomplete_candidate", "buffers_all_consumed_no_frame", "nested_in_invalid_outer", "buffers_with_2plus_frames"] {
+    for k in ["buffers_longer_than_64KiB", "buffers_frame_at_0", "buffers_frame_after_skipped_bytes", "buffers_stopped_at_incomplete_candidate", "buffers_all_consumed_no_frame", "nested_in_invalid_outer", "buffers_with_2plus_frames"] {
         if total.get(k) == 0 {
             total.inconclusive(format!("no buffer of class {} observed", k));
         }
@@ -900,6 +911,12 @@ pub fn c06(p: &Params) -> Outcome {
             let (s, _tags) = gen::stream(&mut rng, max);
             let exhaustive_single = thorough || i % 4 == 0 || s.len() <= 300;
             c06_stream(ctx, &mut rng, &s, n_random, exhaustive_single);
+            if i % 900 == 11 {
+                // a stream longer than 64 KiB, cut into a few large pieces
+                let big = gen::long_stream(&mut rng, 200_000);
+                ctx.count("streams_longer_than_64KiB");
+                c06_stream(ctx, &mut rng, &big, 3, false);
+            }
         }
     });
     for k in ["cut_after_preamble", "cut_inside_length_field", "cut_inside_payload", "cut_inside_checksum", "cut_at_frame_end", "schedule_one_byte_chunks"] {
